@@ -215,7 +215,11 @@ class Processor:
                 f"Processor::set_value:  Seeking required node at {yaml_path}."
             )
             found_nodes: int = 0
-            for req_node in self._get_required_nodes(self.data, yaml_path):
+            # Gather every match before changing any of them lest the changes
+            # disturb the ongoing search
+            for req_node in list(
+                self._get_required_nodes(self.data, yaml_path)
+            ):
                 found_nodes += 1
                 self._apply_change(yaml_path, req_node, value,
                     value_format=value_format, tag=tag)
@@ -230,9 +234,9 @@ class Processor:
                 "Processor::set_value:  Seeking optional node at {}."
                 .format(yaml_path)
             )
-            for node_coord in self._get_optional_nodes(
+            for node_coord in list(self._get_optional_nodes(
                 self.data, yaml_path, value
-            ):
+            )):
                 self._apply_change(yaml_path, node_coord, value,
                     value_format=value_format, tag=tag)
 
@@ -277,7 +281,8 @@ class Processor:
                 "Unpacked Collector results to apply change:"
                 , data=node_coord.node
                 , prefix="Processor::_apply_change:  ")
-            self._apply_change(yaml_path, node_coord.node, value, **kwargs)
+            self._apply_change(yaml_path, node_coord.node, value,
+                value_format=value_format, tag=tag)
 
         if (isinstance(node_coord.node, list)
             and len(node_coord.node) > 0
@@ -288,7 +293,8 @@ class Processor:
                     "Expanded collected Collector results to apply change:"
                     , data=collector_node
                     , prefix="Processor::_apply_change:  ")
-                self._apply_change(yaml_path, collector_node, value, **kwargs)
+                self._apply_change(yaml_path, collector_node, value,
+                    value_format=value_format, tag=tag)
             return
 
         last_segment = node_coord.path_segment
@@ -336,7 +342,7 @@ class Processor:
             self._update_node(
                 node_coord.parent, node_coord.parentref, value,
                 value_format, tag)
-        except ValueError as vex:
+        except (ValueError, TypeError) as vex:
             raise TypeMismatchYAMLPathException(
                 "Impossible to write '{}' as {}.  The error was:  {}"
                 .format(value, value_format, str(vex))
@@ -2698,16 +2704,32 @@ class Processor:
         # This recurse function was contributed by Anthon van der Neut, the
         # author of ruamel.yaml, to resolve how to update all references to an
         # Anchor throughout the parsed data structure.
+        def is_anchored(node):
+            return (hasattr(node, "anchor")
+                    and node.anchor is not None
+                    and bool(node.anchor.value))
+
+        # Only the node at parent[parentref] and its Aliases (the very same,
+        # Anchored object elsewhere in the data) may be replaced.  Unanchored
+        # nodes which merely share an object with the reference node -- as
+        # Python does for small integers and short strings -- are different
+        # nodes.  (Raw Python dict data has no Anchors; there, a key which is
+        # the very same object as the changed value is still renamed.)
+        listref = parentref
+        if (isinstance(parent, list) and isinstance(parentref, int)
+                and parentref < 0):
+            listref = parentref + len(parent)
+
         def recurse(data, parent, parentref, reference_node, replacement_node):
             if isinstance(data, (CommentedMap, ryod)):
                 for i, k in [
                         (idx, key) for idx, key in enumerate(data.keys())
-                        if key is reference_node
+                        if key is reference_node and is_anchored(key)
                 ]:
                     data.insert(i, replacement_node, data.pop(k))
                 for k, val in data.non_merged_items():
                     if val is reference_node:
-                        if (hasattr(val, "anchor") or
+                        if (is_anchored(val) or
                                 (data is parent and k == parentref)):
                             data[k] = replacement_node
                     else:
@@ -2715,14 +2737,20 @@ class Processor:
                                 replacement_node)
             elif isinstance(data, (CommentedSeq, list)):
                 for idx, item in enumerate(data):
-                    if data is parent and item is reference_node:
-                        data[idx] = replacement_node
+                    if item is reference_node:
+                        if (is_anchored(item) or
+                                (data is parent and idx == listref)):
+                            data[idx] = replacement_node
                     else:
                         recurse(item, parent, parentref, reference_node,
                                 replacement_node)
             elif isinstance(data, (CommentedSet, set)):
-                data.discard(reference_node)
-                data.add(replacement_node)
+                for ele in data:
+                    if (ele is reference_node
+                            and (is_anchored(ele) or data is parent)):
+                        data.discard(ele)
+                        data.add(replacement_node)
+                        break
             elif isinstance(data, OrderedDict):
                 # Manual key (re)ordering is necessary and YMKs are not
                 # supported.
@@ -2742,7 +2770,7 @@ class Processor:
 
                 for k, val in data.items():
                     if val is reference_node:
-                        if (hasattr(val, "anchor") or
+                        if (is_anchored(val) or
                                 (data is parent and k == parentref)):
                             data[k] = replacement_node
                     else:
@@ -2757,7 +2785,7 @@ class Processor:
                     data[replacement_node] = data.pop(k)
                 for k, val in data.items():
                     if val is reference_node:
-                        if (hasattr(val, "anchor") or
+                        if (is_anchored(val) or
                                 (data is parent and k == parentref)):
                             data[k] = replacement_node
                     else:
